@@ -1044,7 +1044,9 @@ theorem loop_verified (H : Bytes → Bytes) (buf key : Bytes) (len : Nat) :
     ∀ (n done : Nat) (s : Bytes) (m : Msg) (mi : Option Nat) (d : Decoded),
       len - done = n → s = buf.drop (Stun.headerSize + done) → loop H buf key len done s m mi = some d →
       (∀ off, d.miAt = some off → mi = some off ∨
-          (key ≠ [] → miValueAt buf off = hmacCode H 64 key (miInputAt buf off))) ∧
+          ((rdU16 (buf.drop (Stun.headerSize + off))).1 = Stun.messageIntegrity ∧
+           (rdU16 (rdU16 (buf.drop (Stun.headerSize + off))).2).1 = 20 ∧
+           (key ≠ [] → miValueAt buf off = hmacCode H 64 key (miInputAt buf off)))) ∧
       (∀ off, d.fpAt = some off → fpValueAt buf off = fingerprintOf (fpInputAt buf off)) := by
   intro n
   induction n using Nat.strongRecOn with
@@ -1089,16 +1091,20 @@ theorem loop_verified (H : Bytes → Bytes) (buf key : Bytes) (len : Nat) :
           simp only at h
           have hdrop : s' = (rdU16 (rdU16 s).2).2.drop (rdU16 (rdU16 s).2).1 ∧
               (mi' = mi ∨ (mi' = some done ∧
+                (rdU16 (buf.drop (Stun.headerSize + done))).1 = Stun.messageIntegrity ∧
+                (rdU16 (rdU16 (buf.drop (Stun.headerSize + done))).2).1 = 20 ∧
                 (key ≠ [] → miValueAt buf done = hmacCode H 64 key (miInputAt buf done)))) := by
             by_cases hfp : (rdU16 s).1 = Stun.fingerprint
             · rw [hfp, attrStep_fp] at hstep
               exact absurd hstep (stepFP_not_next _ _ _ _ _ _ _ _)
             · by_cases hmi : (rdU16 s).1 = Stun.messageIntegrity
               · rw [hmi, attrStep_mi] at hstep
-                obtain ⟨_, h2, h3, h4⟩ := stepMI_next _ _ _ _ _ _ _ _ _ _ hstep
-                refine ⟨h2, Or.inr ⟨h3, ?_⟩⟩
-                rw [hs1] at h4
-                exact h4
+                obtain ⟨h20, h2, h3, h4⟩ := stepMI_next _ _ _ _ _ _ _ _ _ _ hstep
+                refine ⟨h2, Or.inr ⟨h3, ?_, ?_, ?_⟩⟩
+                · rw [← hs]; exact hmi
+                · rw [← hs]; exact h20
+                · rw [hs1] at h4
+                  exact h4
               · have := attrStep_plain H buf key done _ (rdU16 (rdU16 s).2).1 (rdU16 (rdU16 s).2).2 m mi hmi hfp
                 rw [hstep] at this
                 exact ⟨this.1, Or.inl this.2⟩
@@ -1138,7 +1144,7 @@ theorem decodeX_verified (H : Bytes → Bytes) (buf key : Bytes) (d : Decoded) (
       refine ⟨fun off ho hk => ?_, this.2⟩
       rcases this.1 off ho with h1 | h1
       · simp at h1
-      · exact h1 hk
+      · exact h1.2.2 hk
 
 /-! ## sample message, HMAC characterisation, defect witnesses -/
 
@@ -1367,5 +1373,335 @@ theorem decodeX_fits (H : Bytes → Bytes) (buf key : Bytes) (d : Decoded) (h : 
       have := loop_fits H buf key _ hl _ 0 _ _ none d buf.length rfl hs (by rw [hs, List.length_drop]; omega) h
       rw [hs] at this
       exact this
+
+/-! ## single-bit flips -/
+
+theorem one_shl_ne_zero : ∀ j, j < 8 → (1 : UInt8) <<< UInt8.ofNat j ≠ 0 := by decide
+
+theorem xor_ne_self (x y : UInt8) (hy : y ≠ 0) : x ^^^ y ≠ x := by
+  intro h
+  apply hy
+  have : x ^^^ (x ^^^ y) = x ^^^ x := by rw [h]
+  rwa [← UInt8.xor_assoc, UInt8.xor_self, UInt8.zero_xor] at this
+
+theorem flipBit_length (b : Bytes) (i : Nat) : (flipBit b i).length = b.length := by
+  simp [flipBit]
+
+theorem flipBit_other (b : Bytes) (i q : Nat) (h : q ≠ i / 8) : (flipBit b i)[q]? = b[q]? := by
+  unfold flipBit
+  rw [List.getElem?_set_ne (Ne.symm h)]
+
+theorem flipBit_same (b : Bytes) (i : Nat) (h : i / 8 < b.length) : (flipBit b i)[i / 8]? ≠ b[i / 8]? := by
+  unfold flipBit
+  rw [List.getElem?_set_self h, List.getElem?_eq_getElem h]
+  have hd : b.getD (i / 8) 0 = b[i / 8] := by simp [List.getD_eq_getElem?_getD, List.getElem?_eq_getElem h]
+  rw [hd]
+  intro he
+  exact xor_ne_self _ _ (one_shl_ne_zero (i % 8) (Nat.mod_lt _ (by decide))) (Option.some.inj he)
+
+
+/-! ## `setLen` touches bytes 2 and 3 only -/
+
+theorem setLen_length (x : Bytes) (v : Nat) (h : 4 ≤ x.length) : (setLen x v).length = x.length := by
+  simp only [setLen, List.length_append, List.length_take, List.length_drop, putU16_len]; omega
+
+theorem setLen_getElem? (x : Bytes) (v q : Nat) (h : 4 ≤ x.length) (h2 : q ≠ 2) (h3 : q ≠ 3) :
+    (setLen x v)[q]? = x[q]? := by
+  unfold setLen
+  by_cases hq : q < 2
+  · rw [List.append_assoc, List.getElem?_append_left (by simp; omega), List.getElem?_take_of_lt hq]
+  · have hq4 : 4 ≤ q := by omega
+    rw [List.getElem?_append_right (by simp [putU16_len]; omega)]
+    simp only [List.length_append, List.length_take, putU16_len, List.getElem?_drop]
+    congr 1; omega
+
+/-- two byte strings of the same length ≥ 4 whose 16-bit fields at bytes 2..3 read the same agree on these two bytes -/
+theorem lenField_bytes (a b : Bytes) (ha : 4 ≤ a.length) (hb : 4 ≤ b.length)
+    (h : (rdU16 (rdU16 a).2).1 = (rdU16 (rdU16 b).2).1) : a[2]? = b[2]? ∧ a[3]? = b[3]? := by
+  match a, b, ha, hb with
+  | a0 :: a1 :: a2 :: a3 :: ar, b0 :: b1 :: b2 :: b3 :: br, _, _ =>
+    simp only [rdU16] at h
+    have h2 := a2.toNat_lt; have h3 := a3.toNat_lt; have h2' := b2.toNat_lt; have h3' := b3.toNat_lt
+    have e2 : a2 = b2 := UInt8.toNat_inj.mp (by omega)
+    have e3 : a3 = b3 := UInt8.toNat_inj.mp (by omega)
+    simp [e2, e3]
+
+/-- the 16-bit value at the front determines the two bytes -/
+theorem rdU16_bytes (a b : Bytes) (ha : 2 ≤ a.length) (hb : 2 ≤ b.length) (h : (rdU16 a).1 = (rdU16 b).1) :
+    a[0]? = b[0]? ∧ a[1]? = b[1]? := by
+  match a, b, ha, hb with
+  | a0 :: a1 :: ar, b0 :: b1 :: br, _, _ =>
+    simp only [rdU16] at h
+    have h2 := a0.toNat_lt; have h3 := a1.toNat_lt; have h2' := b0.toNat_lt; have h3' := b1.toNat_lt
+    have e2 : a0 = b0 := UInt8.toNat_inj.mp (by omega)
+    have e3 : a1 = b1 := UInt8.toNat_inj.mp (by omega)
+    simp [e2, e3]
+
+/-- what a successful decode says about the header -/
+theorem decodeX_header (H : Bytes → Bytes) (buf key : Bytes) (d : Decoded) (h : decodeX H buf key = some d) :
+    Stun.headerSize ≤ buf.length ∧ (rdU16 (rdU16 buf).2).1 = buf.length - Stun.headerSize := by
+  unfold decodeX decodeFrom at h
+  split at h
+  · contradiction
+  · rename_i h20
+    simp only at h
+    split at h
+    · contradiction
+    · rename_i hl
+      exact ⟨by omega, by simpa using hl⟩
+
+
+/-- `decodeX_verified` with the two header fields of the attribute the decoder verified -/
+theorem decodeX_verified_at (H : Bytes → Bytes) (buf key : Bytes) (d : Decoded) (off : Nat)
+    (h : decodeX H buf key = some d) (hmi : d.miAt = some off) :
+    (rdU16 (buf.drop (Stun.headerSize + off))).1 = Stun.messageIntegrity ∧
+    (rdU16 (rdU16 (buf.drop (Stun.headerSize + off))).2).1 = 20 ∧
+    (key ≠ [] → miValueAt buf off = hmacCode H 64 key (miInputAt buf off)) := by
+  unfold decodeX decodeFrom at h
+  split at h
+  · contradiction
+  · simp only at h
+    split at h
+    · contradiction
+    · have hs : (rdResize Msg.fresh.id Msg.fresh.id.length (rdU32 (rdU16 (rdU16 buf).2).2).2).2
+          = buf.drop (Stun.headerSize + 0) := by
+        rw [rdResize_snd, rdU32_snd, rdU16_snd, rdU16_snd, List.drop_drop, List.drop_drop, List.drop_drop]
+        rfl
+      have := loop_verified H buf key _ _ 0 _ _ none d rfl hs h
+      rcases this.1 off hmi with h1 | h1
+      · simp at h1
+      · exact h1
+
+theorem miValueAt_getElem? (x : Bytes) (off j : Nat) (hj : j < 20)
+    (hl : Stun.headerSize + off + 4 + 20 ≤ x.length) :
+    (miValueAt x off)[j]? = x[Stun.headerSize + off + 4 + j]? := by
+  unfold miValueAt rdRaw
+  have hz : 20 - (x.drop (Stun.headerSize + off + 4)).length = 0 := by simp only [List.length_drop]; omega
+  simp only [hz, zeros, List.replicate_zero, List.append_nil, List.getElem?_take_of_lt hj, List.getElem?_drop]
+
+/-- **A tampered packet that is accepted with integrity verified carries a forgery.**  Let `b` be the encoding of a
+well-formed message under a non-empty key.  Flip any one bit of the protected bytes — header and attributes before
+MESSAGE-INTEGRITY — or of the MESSAGE-INTEGRITY attribute itself.  If `decode` accepts the result under the same key
+and met (hence verified) a MESSAGE-INTEGRITY attribute anywhere, then the bytes it authenticated there are not the
+bytes the sender authenticated, and yet the packet contains their valid MAC.  No hypothesis about the hash. -/
+theorem tamper_verified_is_forgery_aux (H : Bytes → Bytes) (hH : ∀ x, (H x).length = 20) (m : Msg) (h : WFMsg m)
+    (k : Bytes) (hk : k ≠ []) (fp : Bool) (i : Nat)
+    (hi : i / 8 < Stun.headerSize + (body m).length + 24) (d : Decoded) (off : Nat)
+    (hdec : decodeX H (flipBit (encode H m k fp) i) k = some d) (hmi : d.miAt = some off) :
+    miInputAt (flipBit (encode H m k fp) i) off ≠ miInputAt (encode H m k fp) (body m).length ∧
+    hmacCode H 64 k (miInputAt (flipBit (encode H m k fp) i) off) = miValueAt (flipBit (encode H m k fp) i) off := by
+  have hv' := decodeX_verified_at H _ k d off hdec hmi
+  refine ⟨?_, (hv'.2.2 hk).symm⟩
+  intro heq
+  -- the untouched packet
+  have hL : (encode H m k fp).length = Stun.headerSize + (body m).length + 24 + (if fp then 8 else 0) := by
+    rw [encode_length H hH m h.id k fp]; simp [hk]
+  have hd0 := decodeX_encode H hH m h k fp
+  have hv := decodeX_verified_at H _ k _ (body m).length hd0 (by simp [hk])
+  have hh := decodeX_header H _ k _ hd0
+  have hh' := decodeX_header H _ k _ hdec
+  have e20 : Stun.headerSize = 20 := rfl
+  have hlen' := flipBit_length (encode H m k fp) i
+  have hsame := flipBit_same (encode H m k fp) i (by omega)
+  clear hd0 hdec
+  generalize encode H m k fp = b at *
+  generalize flipBit b i = b' at *
+  -- the two authenticated prefixes have the same length, so the decoder verified at the original offset
+  have hoff : off = (body m).length := by
+    have := congrArg List.length heq
+    unfold miInputAt at this
+    rw [setLen_length _ _ (by simp only [List.length_take]; omega),
+      setLen_length _ _ (by simp only [List.length_take]; omega)] at this
+    simp only [List.length_take] at this
+    omega
+  rw [hoff] at heq hv'
+  by_cases hpre : i / 8 < Stun.headerSize + (body m).length
+  · by_cases h23 : i / 8 = 2 ∨ i / 8 = 3
+    · have := lenField_bytes b' b (by omega) (by omega)
+        (by rw [hh'.2, hh.2, hlen'])
+      rcases h23 with e | e
+      · rw [e] at hsame; exact hsame this.1
+      · rw [e] at hsame; exact hsame this.2
+    · have := congrArg (·[i / 8]?) heq
+      simp only [miInputAt] at this
+      rw [setLen_getElem? _ _ _ (by simp only [List.length_take]; omega) (by omega) (by omega),
+        setLen_getElem? _ _ _ (by simp only [List.length_take]; omega) (by omega) (by omega),
+        List.getElem?_take_of_lt hpre, List.getElem?_take_of_lt hpre] at this
+      exact hsame this
+  · -- the flipped bit lies in the MESSAGE-INTEGRITY attribute itself
+    have hge : Stun.headerSize + (body m).length ≤ i / 8 := by omega
+    have e1 := rdU16_bytes (b'.drop (Stun.headerSize + (body m).length)) (b.drop (Stun.headerSize + (body m).length))
+      (by simp only [List.length_drop]; omega) (by simp only [List.length_drop]; omega)
+      (by rw [hv'.1, hv.1])
+    have e2 := rdU16_bytes (rdU16 (b'.drop (Stun.headerSize + (body m).length))).2
+      (rdU16 (b.drop (Stun.headerSize + (body m).length))).2
+      (by rw [rdU16_snd]; simp only [List.length_drop]; omega)
+      (by rw [rdU16_snd]; simp only [List.length_drop]; omega)
+      (by rw [hv'.2.1, hv.2.1])
+    simp only [rdU16_snd, List.getElem?_drop, List.drop_drop] at e1 e2
+    have hval : miValueAt b' (body m).length = miValueAt b (body m).length := by
+      rw [hv'.2.2 hk, hv.2.2 hk, heq]
+    by_cases c0 : i / 8 = Stun.headerSize + (body m).length + 0
+    · rw [c0] at hsame; exact hsame e1.1
+    by_cases c1 : i / 8 = Stun.headerSize + (body m).length + 1
+    · rw [c1] at hsame; exact hsame e1.2
+    by_cases c2 : i / 8 = Stun.headerSize + (body m).length + 2 + 0
+    · rw [c2] at hsame; exact hsame e2.1
+    by_cases c3 : i / 8 = Stun.headerSize + (body m).length + 2 + 1
+    · rw [c3] at hsame; exact hsame e2.2
+    have hj : i / 8 - (Stun.headerSize + (body m).length + 4) < 20 := by omega
+    have : (miValueAt b' (body m).length)[i / 8 - (Stun.headerSize + (body m).length + 4)]? =
+        (miValueAt b (body m).length)[i / 8 - (Stun.headerSize + (body m).length + 4)]? := by rw [hval]
+    rw [miValueAt_getElem? _ _ _ hj (by omega),
+      miValueAt_getElem? _ _ _ hj (by omega)] at this
+    have e : Stun.headerSize + (body m).length + 4 + (i / 8 - (Stun.headerSize + (body m).length + 4)) = i / 8 := by omega
+    rw [e] at this
+    exact hsame this
+
+
+/-! ## authenticated decode -/
+
+theorem decodeAuth_encode (H : Bytes → Bytes) (hH : ∀ x, (H x).length = 20) (m : Msg) (h : WFMsg m) (k : Bytes)
+    (hk : k ≠ []) (fp : Bool) : decodeAuth H (encode H m k fp) k = some (view m) := by
+  unfold decodeAuth
+  rw [decodeX_encode H hH m h k fp]
+  simp [hk]
+
+theorem tamper_rejected_aux (H : Bytes → Bytes) (hH : ∀ x, (H x).length = 20) (m : Msg) (h : WFMsg m)
+    (k : Bytes) (hk : k ≠ []) (fp : Bool) (i : Nat)
+    (hi : i / 8 < Stun.headerSize + (body m).length + 24)
+    (hNF : NotAForgery H k (miInputAt (encode H m k fp) (body m).length) (flipBit (encode H m k fp) i)) :
+    decodeAuth H (flipBit (encode H m k fp) i) k = none := by
+  unfold decodeAuth
+  cases hd : decodeX H (flipBit (encode H m k fp) i) k with
+  | none => rfl
+  | some d =>
+    cases hmi : d.miAt with
+    | none => simp [hmi]
+    | some off =>
+      have := tamper_verified_is_forgery_aux H hH m h k hk fp i hi d off hd hmi
+      exact absurd this.2 (hNF off this.1)
+
+/-- once MESSAGE-INTEGRITY has been met, the loop changes neither the message nor that fact -/
+theorem loop_after_integrity (H : Bytes → Bytes) (buf key : Bytes) (len : Nat) :
+    ∀ (n done : Nat) (s : Bytes) (m : Msg) (x : Nat) (d : Decoded),
+      len - done = n → loop H buf key len done s m (some x) = some d → d.msg = m ∧ d.miAt = some x := by
+  intro n
+  induction n using Nat.strongRecOn with
+  | ind n ih =>
+    intro done s m x d hn h
+    rw [loop] at h
+    by_cases hlt : done < len
+    · simp only [hlt, dite_true] at h
+      by_cases hbound : done + 4 + (rdU16 (rdU16 s).2).1 > len
+      · rw [if_pos hbound] at h; contradiction
+      rw [if_neg hbound] at h
+      by_cases hfp : (rdU16 s).1 = Stun.fingerprint
+      · have hns : ¬ ((some x).isSome = true ∧ (rdU16 s).1 ≠ Stun.fingerprint) := by simp [hfp]
+        rw [if_neg hns, hfp, attrStep_fp] at h
+        cases hstep : stepFP buf done (rdU16 (rdU16 s).2).1 (rdU16 (rdU16 s).2).2 m with
+        | fail => rw [hstep] at h; simp at h
+        | accept m' d0 =>
+          rw [hstep] at h
+          obtain ⟨_, hm, _⟩ := stepFP_accept _ _ _ _ _ _ _ hstep
+          simp only [Option.some.injEq] at h
+          subst h
+          exact ⟨hm, rfl⟩
+        | next s' m' mi' => exact absurd hstep (stepFP_not_next _ _ _ _ _ _ _ _)
+      · have hs : (some x).isSome = true ∧ (rdU16 s).1 ≠ Stun.fingerprint := ⟨rfl, hfp⟩
+        rw [if_pos hs] at h
+        exact ih (len - (done + (4 + (rdU16 (rdU16 s).2).1 + pad4 (rdU16 (rdU16 s).2).1))) (by omega) _ _ m x d rfl h
+    · simp only [hlt, dite_false, Option.some.injEq] at h
+      subst h
+      exact ⟨rfl, rfl⟩
+
+theorem flipBit_append_right (a r : Bytes) (i : Nat) (h : a.length ≤ i / 8) :
+    ∃ r', flipBit (a ++ r) i = a ++ r' ∧ r'.length = r.length := by
+  refine ⟨(flipBit (a ++ r) i).drop a.length, ?_, ?_⟩
+  · have : (flipBit (a ++ r) i).take a.length = a := by
+      unfold flipBit
+      rw [List.take_set_of_le h, List.take_left']
+      rfl
+    conv => lhs; rw [← List.take_append_drop a.length (flipBit (a ++ r) i)]
+    rw [this]
+  · rw [List.length_drop, flipBit_length, List.length_append]; omega
+
+/-- **Flips behind MESSAGE-INTEGRITY (in the FINGERPRINT attribute) cannot change the authenticated message**: the
+result is a rejection or the original message; no hypothesis about the hash. -/
+theorem tamper_after_mi_aux (H : Bytes → Bytes) (hH : ∀ x, (H x).length = 20) (m : Msg) (h : WFMsg m)
+    (k : Bytes) (hk : k ≠ []) (i : Nat) (hi : Stun.headerSize + (body m).length + 24 ≤ i / 8) :
+    decodeAuth H (flipBit (encode H m k true) i) k = none ∨
+    decodeAuth H (flipBit (encode H m k true) i) k = some (view m) := by
+  have hid := h.id
+  have hsz := h.size
+  rw [encode_key_fp H hH m k hk hid]
+  obtain ⟨r', hr', hlr⟩ := flipBit_append_right (framed m ((body m).length + 32) ++ miAttr H m k)
+    (fpAttr (framed m ((body m).length + 32) ++ miAttr H m k)) i
+    (by rw [List.length_append, framed_len m _ hid, miAttr_len H hH]; simp only [Stun.headerSize] at hi; omega)
+  rw [hr', List.append_assoc]
+  rw [fpAttr_len] at hlr
+  generalize hb : framed m ((body m).length + 32) ++ (miAttr H m k ++ r') = buf
+  have e := decodeX_framed H m ((body m).length + 32) (miAttr H m k ++ r') k h.type h.cookie hid
+    (by omega) (by simp [miAttr_len H hH, hlr])
+  rw [hb] at e
+  have s := steps_body m h H buf k ((body m).length + 32) 0 (miAttr H m k ++ r') (by omega)
+    (by simp [miAttr_len H hH, hlr])
+  have hm : hmacCode H 64 k (framed m ((body m).length + 24)) =
+      hmacCode H 64 k (setLen (buf.take (Stun.headerSize + (0 + (body m).length))) (0 + (body m).length + Stun.miAdjust)) := by
+    rw [← hb, Nat.zero_add, take_framed m _ _ hid]
+    have := setLen_framed m ((body m).length + 32) ((body m).length + Stun.miAdjust) []
+    simp only [List.append_nil] at this
+    rw [this]; rfl
+  have l := loop_mi H buf k ((body m).length + 32) (0 + (body m).length) _ r' (view m) (by omega) (by omega) hm
+    (hmacCode_len H hH _ _ _)
+  have hmi : miAttr H m k ++ r' =
+      putU16 Stun.messageIntegrity ++ (putU16 20 ++ (hmacCode H 64 k (framed m ((body m).length + 24)) ++ r')) := by
+    simp [miAttr, List.append_assoc]
+  unfold decodeAuth
+  rw [e, s, hmi, l]
+  cases hl : loop H buf k ((body m).length + 32) (0 + (body m).length + 24) r' (view m) (some (0 + (body m).length)) with
+  | none => left; rfl
+  | some d =>
+    right
+    have := loop_after_integrity H buf k _ _ _ _ _ _ d rfl hl
+    simp [this.1, this.2]
+
+/-! ## messages too large for the 16-bit length fields -/
+
+theorem rdU16_put_mod (x : Nat) (r : Bytes) : rdU16 (putU16 x ++ r) = (x % 65536, r) := by
+  simp only [putU16, rdU16, List.cons_append, List.nil_append, u8n]
+  congr 1; omega
+
+/-- a message whose attribute section does not fit the 16-bit length field is encoded with a wrapped length and is
+rejected by `decode` (header length ≠ packet length) -/
+theorem decode_none_of_oversized (H : Bytes → Bytes) (m : Msg) (hid : m.id.length = 12) (ht : m.type < 65536)
+    (hbig : 65536 ≤ (body m).length) : decode H (encode H m [] false) [] = none := by
+  rw [encode_nokey_nofp H m hid]
+  have hlen : (framed m (body m).length).length = 20 + (body m).length := framed_len m _ hid
+  have hne : ¬ ((body m).length % 65536 = 20 + (body m).length - Stun.headerSize) := by
+    have := Nat.mod_lt (body m).length (show 65536 > 0 by decide)
+    simp only [Stun.headerSize]; omega
+  unfold decode decodeX decodeFrom
+  rw [hlen]
+  simp only [framed, rdU16_put _ _ ht, rdU16_put_mod, ne_eq, hne, not_false_eq_true, if_true, if_neg (show ¬ (20 + (body m).length < Stun.headerSize) by simp only [Stun.headerSize]; omega), Option.map_none]
+
+theorem dataOnly_body_eq (d : Bytes) : body (dataOnlyMsg d) = encBlob Stun.dataAttr d := by
+  have e1 : ∀ ty x, encAddr ty ({} : Addr) x = [] := fun _ _ => rfl
+  have e2 : encError (dataOnlyMsg d) = [] := rfl
+  have e3 : encIce (dataOnlyMsg d) = [] := rfl
+  unfold body
+  rw [e2, e3]
+  show encAddr _ {} none ++ encOpt none _ ++ encAddr _ {} none ++ encAddr _ {} none ++ encAddr _ {} none ++
+    encAddr _ {} _ ++ encAddr _ {} _ ++ encAddr _ {} _ ++ [] ++ encOpt none _ ++ (if false then _ else []) ++
+    encOpt none _ ++ encOpt (some d) _ ++ encOpt none _ ++ encOpt none _ ++ encOpt none _ ++ encOpt none _ ++
+    encOpt none _ ++ encOpt none _ ++ encOpt none _ ++ [] = _
+  simp only [e1, encOpt, List.append_nil, List.nil_append, Bool.false_eq_true, if_false]
+
+theorem oversized_data_rejected (H : Bytes → Bytes) (d : Bytes) (hd : 65532 ≤ d.length) :
+    decode H (encode H (dataOnlyMsg d) [] false) [] = none := by
+  refine decode_none_of_oversized H (dataOnlyMsg d) rfl (by show 0 < 65536; decide) ?_
+  rw [dataOnly_body_eq]
+  simp only [encBlob, List.length_append, putU16_len, padded_len]
+  omega
 
 end Qx.C14
